@@ -17,10 +17,10 @@ VARIABLES op,        \* 0: before op 1, 1: op 1 in progress, 10: between, 2: op 
           pending,   \* set of message ids with a stored, unreported cancel
           during,    \* during[k]: ids of the cancels that arrived while operation k was in progress and are not yet reported
           hist,      \* history of events, for replay
-          polls, ncancel, lastPoll
-vars == <<op, pending, during, hist, polls, ncancel, lastPoll>>
+          polls, ncancel, lastPoll, nother
+vars == <<op, pending, during, hist, polls, ncancel, lastPoll, nother>>
 
-Init == /\ op = 0 /\ pending = {} /\ during = [k \in {1, 2} |-> {}] /\ hist = <<>> /\ polls = 0 /\ ncancel = 0
+Init == /\ op = 0 /\ pending = {} /\ during = [k \in {1, 2} |-> {}] /\ hist = <<>> /\ polls = 0 /\ ncancel = 0 /\ nother = 0
         /\ lastPoll = [k |-> 0, reported |-> FALSE, expected |-> FALSE]
 InProgress == op \in {1, 2}
 CancelArrives(id) ==
@@ -29,14 +29,14 @@ CancelArrives(id) ==
   /\ pending' = pending \cup {id}
   /\ during' = IF InProgress THEN [during EXCEPT ![op] = @ \cup {id}] ELSE during
   /\ hist' = Append(hist, <<"cancel", id>>)
-  /\ UNCHANGED <<op, polls, lastPoll>>
+  /\ UNCHANGED <<op, polls, lastPoll, nother>>
 Start ==
   /\ op \in {0, 10}
   /\ op' = IF op = 0 THEN 1 ELSE 2
   /\ pending' = {}                      \* cancels received before the operation began do not apply to it
   /\ polls' = 0
   /\ hist' = Append(hist, <<"start", op'>>)
-  /\ UNCHANGED <<during, ncancel, lastPoll>>
+  /\ UNCHANGED <<during, ncancel, lastPoll, nother>>
 Poll ==
   /\ InProgress /\ polls < MaxPolls
   /\ polls' = polls + 1
@@ -44,14 +44,21 @@ Poll ==
   /\ pending' = pending \ {op}
   /\ during' = [during EXCEPT ![op] = @ \ {op}]
   /\ hist' = Append(hist, <<"poll", op>>)
-  /\ UNCHANGED <<op, ncancel>>
+  /\ UNCHANGED <<op, ncancel, nother>>
 End ==
   /\ InProgress
   /\ op' = IF op = 1 THEN 10 ELSE 20
   /\ pending' = {}
   /\ hist' = Append(hist, <<"end", op>>)
-  /\ UNCHANGED <<during, polls, ncancel, lastPoll>>
-Next == (\E id \in Ids : CancelArrives(id)) \/ Start \/ Poll \/ End
+  /\ UNCHANGED <<during, polls, ncancel, lastPoll, nother>>
+\* another association of the same application entity runs a whole operation with the same message id
+\* (start, one poll, end) in the meantime: it shares nothing with this association
+OtherAssociation ==
+  /\ InProgress /\ nother < 1
+  /\ nother' = nother + 1
+  /\ hist' = Append(hist, <<"other", op>>)
+  /\ UNCHANGED <<op, pending, during, polls, ncancel, lastPoll>>
+Next == (\E id \in Ids : CancelArrives(id)) \/ Start \/ Poll \/ End \/ OtherAssociation
 Spec == Init /\ [][Next]_vars
 
 \* a poll reports a cancel exactly when a cancel naming this operation arrived while it was in progress
